@@ -744,6 +744,17 @@ def _calls_mutate(field, value):
     return m
 
 
+def _c13_mutate(rec):
+    """an honest request within the limit is claimed to have been far above it: its handling must be rejected"""
+    if rec.get("ev") == "msg":
+        rec["outcome"] = "refused" if rec.get("outcome") != "refused" else "delivered"
+        return rec
+    if rec.get("ev") == "req" and rec.get("decl") == "truthful" and rec.get("n", 0) <= rec.get("limit", 0) and rec.get("n", 0) >= 4:
+        rec["n"] = rec["limit"] * 1000 + 7
+        return rec
+    return None
+
+
 _CALLS_ASSUME = ["every case runs in a child process; a child that dies is the observation 'crash'",
                  "servers and scripted peers run on ephemeral ports on the loopback interface",
                  "payloads are identified by length and a 48-bit SHA-1 prefix"]
@@ -765,7 +776,7 @@ reg(P("C13", "calls", "c13",
       rule="cases = transports x limits {8, 1000} (thorough: 5, 8, 1000, 65499) x body sizes limit-1, limit, limit+1, 5*limit+3 "
            "x declaration {truthful (honest client), absent (HTTP chunked), smaller than actual (HTTP Content-Length, raw "
            "socket / UDP frame), truthful raw frame}; every case is non-trivial",
-      assumptions=_CALLS_ASSUME, sig_fn=_calls_sig, mutate=_calls_mutate(("ret", "kind"), "error"),
+      assumptions=_CALLS_ASSUME, sig_fn=_calls_sig, mutate=_c13_mutate,
       design_ref="DESIGN.md §6 C13",
       technique="TLC model checking of Framing.tla (NeverOverLimit, RefusedIfOver for declared, absent and lying lengths) + replay of the model's message space into the real transports validated by FramingTrace + TLC trace validation of recorded requests against the MaxLen monitor"))
 reg(P("C11", "calls", "c11",
